@@ -460,6 +460,45 @@ def run_rebind(spec, ctx):
         text = rx.render(tv, lit, full=r.random() < 0.3)
         nops = len(ge.operators(t))
         ctx.case(("rebind", text, tuple(names)), nontrivial=nops >= 1)
+        if done % 5 == 4:
+            # (c) the variables are supplied by the host: values built with the value classes' own constructors
+            # (a fresh boolean, int, ... object per variable - not the interpreter's shared TRUE / FALSE / NULL objects)
+            V = R.V
+            env = R.Env()
+
+            def host_value(av):
+                k_ = av[0]
+                if k_ == "bool":
+                    return V.ValueBoolean(bool(av[1]))
+                if k_ == "null":
+                    return V.NULL           # (the null value is a single shared object by design: `other is NULL`)
+                if k_ == "int":
+                    return V.ValueInt(int(av[1]))
+                if k_ == "dec":
+                    return V.ValueDecimal(float(av[1]))
+                if k_ == "str":
+                    return V.ValueString(str(av[1]))
+                return gv.to_ckl(av)
+            for n_, av in names:
+                env.put(n_, host_value(av))
+            prog = "do [0, %s] catch 'ERROR' do [1, 'ERROR'] end end" % text
+            want = ref_outcome(ctx, tv, {n_: av for n_, av in names})
+            o = observe(lambda: R.it.interpret(prog, "c02", env), 600000)
+            ctx.count("host_value_programs")
+            if want is None:
+                continue
+            if o.kind != "value":
+                ctx.violation("C02:host-values:escape-%s" % o.kind, "%s with host-supplied %s -> %s %s" % (text, names, o.kind, core.safe_str(o.exc, 200)), {"src": prog})
+                continue
+            try:
+                got = gv.abstract(o.value)
+            except gv.NotData:
+                got = ("other",)
+            ctx.count("host_value_evaluations")
+            if not agrees(got, want):
+                ctx.violation("C02:host-values:%s" % opkey(t), "%s with host-supplied %s gave %r, definition says %r" % (
+                    text, [(n_, lit(av)) for n_, av in names], got, want), {"src": prog})
+            continue
         if done % 2 == 0:
             # (a) one function body, successive calls
             tuples = [[av for n, av in names]]
@@ -538,12 +577,12 @@ def run_rebind(spec, ctx):
 
 
 def run_long_chains(spec, ctx):
-    """one operator repeated 65..120 times: still left-associative, whatever the operand kinds (decimal rounding,
+    """one operator repeated up to 240 times: still left-associative, whatever the operand kinds (decimal rounding,
     string and list concatenation are not associative across kinds)"""
     R = Runner(ctx)
     r = ctx.rng
     for _ in range(spec["n"]):
-        n = r.choice([65, 66, 70, 80, 96, 100, 120, 64, 63, 33])
+        n = r.choice([65, 66, 70, 80, 96, 100, 120, 64, 63, 33, 127, 128, 129, 160, 200, 240])
         shape = r.choice(["dec+", "dec*", "str+", "list+", "mixed+", "int-dec+", "sub", "div", "mixed-ops"])
         if shape == "dec+":
             ops, leaves = ["+"] * (n - 1), [("dec", r.choice([0.1, 0.2, 0.3, 1e16, -1e16, 0.7, 1.1])) for _ in range(n)]
@@ -683,7 +722,7 @@ def finalize(merged, tier):
     c = merged["counters"]
     reasons = []
     for k in ("grouping_comparisons", "value_comparisons", "chain_conjunction_comparisons", "law_evaluations", "predicate_pairs", "operator_pairs",
-              "rebind_evaluations", "history_evaluations", "long_chain_evaluations"):
+              "rebind_evaluations", "history_evaluations", "long_chain_evaluations", "host_value_evaluations"):
         if c.get(k, 0) == 0:
             reasons.append("monitor counter %s is zero" % k)
     if c.get("renderer_mismatch", 0):
